@@ -876,11 +876,11 @@ def size_independence(root, tier):
     undo = IO.install(S, path)
     seen = {}
     try:
-      for flush in (True, False):
+      for flush, newline in ((True, ""), (False, ""), (True, "\n"), (True, "\r\n")):
         for auto in (True, False):
             if os.path.exists(path):
                 os.remove(path)
-            db = tf.TinyFlux(path, auto_index=auto, flush_on_insert=flush)
+            db = tf.TinyFlux(path, auto_index=auto, flush_on_insert=flush, newline=newline)
             cur = 0
             total = singles = 0
             for sz in sizes:
@@ -909,13 +909,13 @@ def size_independence(root, tier):
             db.close()
             # everything inserted is in the file, once, whatever the reads in between left the handle at
             try:
-                db2 = tf.TinyFlux(path, access_mode="r")
+                db2 = tf.TinyFlux(path, access_mode="r", newline=newline)
                 ks = [p.tags.get("k") for p in db2.all(sorted=False)]
                 db2.close()
                 want = total
                 nnew = sum(1 for k in ks if k == "new")
                 if len(ks) != want or nnew != singles or len({k for k in ks if k != "new"}) != want - singles:
-                    findings.append(Finding("impl-vs-spec", f"flush_on_insert={flush}, auto_index={auto}: {want} points were inserted (reads in between stopped at the start / "
+                    findings.append(Finding("impl-vs-spec", f"flush_on_insert={flush}, newline={newline!r}, auto_index={auto}: {want} points were inserted (reads in between stopped at the start / "
                                             f"in the middle of the file); the file holds {len(ks)} rows, {nnew} of the single inserts", dict(family="io-size", flush=flush)))
             except Exception as e:
                 findings.append(Finding("impl-vs-spec", f"flush_on_insert={flush}, auto_index={auto}: after inserts interleaved with early-stopping reads the file "
